@@ -450,7 +450,9 @@ func runC14(r *rt.Run) {
 	// of to 10 m beyond the antimeridian
 	{
 		w := r.Worker()
-		deltas := []float64{-10, -1, -0.1, -0.05, -0.02, 0, 0.02, 0.03, 0.05, 0.1, 1, 10}
+		deltas := []float64{-10, -1, -0.1, -0.05, -0.02, 0, 0.02, 0.03, 0.05, 0.1, 1, 10,
+			// either side of the one-centimetre tolerance in half-millimetre steps
+			-0.015, -0.0125, -0.0115, -0.0105, -0.0095, -0.005, 0.005, 0.0095, 0.0101, 0.0105, 0.011, 0.0115, 0.012, 0.0125, 0.013, 0.0135, 0.014, 0.015}
 		cnt := 0
 		for _, lat := range []float64{0, 10, 33, -45, 60, -75} {
 			for _, rr := range []float64{100, 11119.55, 1e5, 1e6} {
@@ -596,6 +598,25 @@ func runC13(r *rt.Run) {
 					}
 					d := sphere.Dist(c.lat, c.lon, pl, po)
 					tol := math.Max(1e-3, 1e-8*d)
+					// two circles whose radii add up to the distance between the
+					// centres as the library computes it, to the last bits (the
+					// answers are free inside the tolerance, their symmetry is not)
+					if dl := geo.DistanceTo(c.lat, c.lon, pl, po); dl > 1 && dla >= 0 {
+						for _, ra := range []float64{100.1, dl / 3, 0.7 * dl, 12345.678} {
+							if ra >= dl {
+								continue
+							}
+							rb := dl - ra
+							for k := 0; k < 2; k++ {
+								rb = math.Nextafter(rb, 0)
+							}
+							for k := -2; k <= 2; k++ {
+								w.Trans++
+								geoRun(w, "circle-circle", c.lat, c.lon, ra, pl, po, rb)
+								rb = math.Nextafter(rb, math.Inf(1))
+							}
+						}
+					}
 					for _, m := range []float64{2 * tol, 0.1, 1e-6 * d, 1e-3 * d} {
 						if m < 2*tol {
 							continue
